@@ -55,6 +55,8 @@ inductive Sel where
   | slice (a b : Nat)
   /-- `matched_tokens[matched_tokens.len() - k].span` -/
   | fromEnd (k : Nat)
+  /-- `matched_tokens[a..].span()?` -/
+  | drop (a : Nat)
   deriving Repr, DecidableEq, Inhabited
 
 /-- `none` = the `?` returns `None` from `match_to_lint` -/
@@ -76,6 +78,10 @@ def Sel.eval (l : List Tok) : Sel → Except Panic (Option Span)
       match l[l.length - k]? with
       | some t => .ok (some t.span)
       | none => .error .sliceOOB
+  | .drop a =>
+    match sliceE l a l.length with
+    | .error e => .error e
+    | .ok s => .ok (spanOf s)
 
 /-- a text a suggestion is made of -/
 inductive Txt where
